@@ -246,6 +246,9 @@ def run_case(case):
     base = S.run_save(case, simfs.Plan(), log, fs=start_fs())
     if env_fail and not refused and isinstance(base.exc, OSError):
         refused = True        # e.g. no hard links: the no-clobber save may fail (or succeed some other atomic way)
+    if S.name_too_long(case) and not refused and isinstance(base.exc, OSError):
+        refused = True        # no room for the part file's name: the save may be refused (or use a shorter name)
+        out.probe('name_too_long_refused')
     N = base.sim.n
     out.steps = N
     # ---- fault-free run: A4, A2, A3 ------------------------------------------------------
